@@ -203,6 +203,13 @@ class World:
         self.hooks = P(params, "hooks", True)
         self.rclass_obj = P(params, "rclass_obj", False)
         self.fault = None  # set by fault-plan harnesses
+        self.place = None
+        if P(params, "place", False):
+            pp = P(params, "pin_place", {})
+            self.place = {k: (pp[k] if k in pp else sym.bool(k))
+                          for k in ("h_pol", "h_call", "b_pol", "b_call", "s_pol", "s_call")}
+            self.place["b_async"] = sym.bool("b_async") if P(params, "async_variants", False) else False
+            self.place["s_async"] = sym.bool("s_async") if P(params, "async_variants", False) else True
 
     def dur(self, name, lo=0):
         """A solver-chosen time quantity: any real, or (params grid=k) a multiple of 1/k microsecond,
@@ -233,16 +240,21 @@ class World:
         def body(ctxinfo):
             w.strat_calls += 1
             j = w.strat_calls
+            rk = "real"
             if w.raw_mode == "zero":
                 raw = 0.0
+                rk = "zero"
+            elif w.raw_mode == "const":  # distinct concrete values: data-flow is visible without forking
+                raw = 0.25 * j
+                rk = "const"
             elif w.raw_mode == "real":
                 raw = w.dur(f"raw{j}", lo=None)
             else:  # any: real, nan, +inf, -inf
-                k = w.sym.choice(f"rawkind{j}", ["real", "nan", "inf", "-inf"])
-                raw = {"nan": NAN, "inf": INF, "-inf": -INF}.get(k)
+                rk = w.choice(f"rawkind{j}", ["real", "nan", "inf", "-inf"])
+                raw = {"nan": NAN, "inf": INF, "-inf": -INF}.get(rk)
                 if raw is None:
-                    raw = w.sym.real(f"raw{j}")
-            w.t(("strategy", which, w.n, ctxinfo, raw))
+                    raw = w.dur(f"raw{j}", lo=None)
+            w.t(("strategy", which, w.n, ctxinfo, raw, rk))
             f = w.fault
             if f is not None and f.get("site") == "strategy" and f.get("at") in (None, j):
                 raise f["exc"]()
@@ -339,6 +351,11 @@ class World:
     classifications = None
 
     def _retry_after(self, obj):
+        ra = P(self.p, "retry_after", False)
+        if ra == "const":
+            return 1.5 + obj.i
+        if ra and self.sym.bool(f"has_ra{obj.i}"):
+            return self.sym.real(f"ra{obj.i}", lo=0)
         return None
 
     def result_classifier(self, r):
@@ -358,36 +375,64 @@ class World:
         self.t(("poll", self.polls, ans))
         return ans
 
-    def handler(self, ctx, s):
+    def handler(self, ctx, s, level="call"):
         self.handler_calls += 1
-        d = self.sym.choice(f"h{self.handler_calls}",
-                            [SleepDecision.SLEEP, SleepDecision.DEFER, SleepDecision.ABORT])
-        self.t(("handler", ctx.attempt, s, d, ctx))
+        d = self.choice(f"h{self.handler_calls}",
+                        [SleepDecision.SLEEP, SleepDecision.DEFER, SleepDecision.ABORT])
+        self.t(("handler", ctx.attempt, s, d, ctx, level))
+        if self.timed and P(self.p, "handler_time", False):
+            # a handler that takes time (e.g. enqueues the retry somewhere)
+            self.clock.now = self.now + self.dur(f"hd{self.handler_calls}")
         return d
 
-    def before_sleep(self, ctx, s):
-        self.t(("before_sleep", ctx.attempt, s))
+    def before_sleep(self, ctx, s, level="call"):
+        self.t(("before_sleep", ctx.attempt, s, level, ctx))
         f = self.fault
         if f is not None and f.get("site") == "before_sleep":
             f["count"] = f.get("count", 0) + 1
             if f.get("at") in (None, f["count"]):
                 raise f["exc"]()
 
-    def _sleep_body(self, s):
+    async def abefore_sleep(self, ctx, s, level="call"):
+        await env.Suspend("before_sleep")
+        self.before_sleep(ctx, s, level)
+
+    def _sleep_body(self, s, level="call"):
         self.sleeps += 1
-        self.t(("sleep", s, self.now))
+        self.t(("sleep", s, self.now, level))
         f = self.fault
-        if f is not None and f.get("site") == "sleeper":
-            raise f["exc"]()
+        if f is not None and f.get("site") == "sleeper" and f.get("at") in (None, self.sleeps):
+            obj = f["exc"]()
+            f["obj"] = obj
+            self.t(("sleeper_raises", self.sleeps))
+            raise obj
         if self.timed:
             self.clock.now = self.now + s + self.dur(f"ov{self.sleeps}")
 
-    def sleeper(self, s):
-        self._sleep_body(s)
+    def sleeper(self, s, level="call"):
+        self._sleep_body(s, level)
 
-    async def asleeper(self, s):
+    async def asleeper(self, s, level="call"):
         await env.Suspend("sleep")
-        self._sleep_body(s)
+        self._sleep_body(s, level)
+
+    def _default_sleep(self, s):
+        self._sleep_body(s, "default")
+
+    def _default_asleep(self, s):
+        return self.asleeper(s, "default")
+
+    def at_level(self, fn, level):
+        """Bind a spy to a placement level (policy / call), keeping its sync/async nature."""
+        import inspect
+
+        if inspect.iscoroutinefunction(fn):
+            async def bound(*a):
+                return await fn(*a, level)
+        else:
+            def bound(*a):
+                return fn(*a, level)
+        return bound
 
     def on_metric(self, event, attempt, sleep_s, tags):
         self.t(("metric", event, attempt, sleep_s, dict(tags)))
@@ -420,6 +465,14 @@ class World:
         if self.tokens is not None:
             self.budget = SpyBudget(self, max_retries=self.tokens, window_s=1000000000)
             kw["budget"] = self.budget
+        pl = self.place
+        if pl:
+            if pl["h_pol"]:
+                kw["sleep"] = self.at_level(self.handler, "policy")
+            if pl["b_pol"]:
+                kw["before_sleep"] = self.at_level(self.abefore_sleep if (self.is_async and pl["b_async"]) else self.before_sleep, "policy")
+            if pl["s_pol"]:
+                kw["sleeper"] = self.at_level(self.asleeper if (self.is_async and pl["s_async"]) else self.sleeper, "policy")
         return kw
 
     def call_kwargs(self, execute=False):
@@ -429,17 +482,27 @@ class World:
             kw["on_log"] = self.on_log
         if self.has_abort:
             kw["abort_if"] = self.abort_if
-        if self.has_handler:
-            kw["sleep"] = self.handler
-        kw["sleeper"] = self.asleeper if self.is_async else self.sleeper
-        if P(self.p, "before_sleep", False):
-            kw["before_sleep"] = self.before_sleep
+        pl = self.place
+        if pl:
+            if pl["h_call"]:
+                kw["sleep"] = self.at_level(self.handler, "call")
+            if pl["b_call"]:
+                kw["before_sleep"] = self.at_level(self.abefore_sleep if (self.is_async and pl["b_async"]) else self.before_sleep, "call")
+            if pl["s_call"]:
+                kw["sleeper"] = self.at_level(self.asleeper if (self.is_async and pl["s_async"]) else self.sleeper, "call")
+        else:
+            if self.has_handler:
+                kw["sleep"] = self.handler
+            kw["sleeper"] = self.asleeper if self.is_async else self.sleeper
+            if P(self.p, "before_sleep", False):
+                kw["before_sleep"] = self.before_sleep
         if P(self.p, "operation", None):
             kw["operation"] = self.p["operation"]
         return kw
 
     def env(self):
-        return env.patched(self.clock, td=env.TDus if P(self.p, "td", "exact") == "us" else env.TD)
+        return env.patched(self.clock, td=env.TDus if P(self.p, "td", "exact") == "us" else env.TD,
+                           on_sleep=self._default_sleep, on_async_sleep=self._default_asleep)
 
     # ---- running one entry point ----------------------------------------------------------
     def build(self, entry, *, breaker=None):
